@@ -1,4 +1,4 @@
 ---- MODULE MC_Batching ----
 EXTENDS J2O_Batching, Json
-EmitDone == done => PrintT(ToJson([c |-> case, x |-> InputT(case.bd, case.s), r |-> expect]))
+EmitDone == done => PrintT(ToJson([c |-> case, x |-> Nest(CaseInput(case)), r |-> Nest(expect)]))
 ====
